@@ -365,4 +365,9 @@ def hashString (s : List Nat) (len : Nat) : Option Nat :=
     some (((((((len * 16807) % m) ^^^ sx a) * 16807) % m ^^^ sx b) * 16807) % m ^^^ sx c)
   | _, _, _ => none
 
+/-- the integral overloads `hash(int8) … hash(uint64)` of Base.hpp: `(usize)v`, i.e. sign extension to 64 bit for the
+    signed types; `x` is the bit pattern of the `w`-bit argument -/
+def hashInt (w : Nat) (signed : Bool) (x : Nat) : Nat :=
+  if signed ∧ 2 ^ (w - 1) ≤ x then 2 ^ 64 - 2 ^ w + x else x
+
 end Nstd.Hash
